@@ -133,6 +133,16 @@ def template(rnd, name, variant=None, hill=None):
         sp = {"species": sorted(x0), "x0": x0, "reactions": rx}
         finite = False
         sims = ["ssa", "psm"]
+    elif name == "hill_open":
+        # a repressed production (hillnegative, no reactant) balanced by first-order loss: the one Hill family whose rate does not
+        # vanish with a reactant, run here through the PLAIN interface as well (the closed Hill template can only use the safe one
+        # for it); the exponent is exactly 1 in every second network.  Truncated like the birth-death template (production <= k)
+        nn = [1.0, 2.0, 1.0, 1.5][(variant or 0) % 4]
+        rx = [{"type": "hillnegative", "reactants": [], "products": ["A"], "fields": {"k": K(rnd, 1, 4), "K": K(rnd, 1, 4), "n": nn, "s1": "A"}},
+              ma(["A"], [], K(rnd, 0.3, 1.5))]
+        sp = {"species": ["A"], "x0": {"A": rnd.randint(0, 4)}, "reactions": rx}
+        finite = False
+        cap = "poisson"
     elif name == "rare_repeat":
         # fewer copies than a repeated reactant needs: the reaction can never fire (A(A-1) = 0 at A = 1, A(A-1)(A-2) = 0 at A <= 2).
         # Its rate constant is small, so that code which does let it fire yields runs that END in a state the master equation
@@ -154,7 +164,7 @@ def template(rnd, name, variant=None, hill=None):
     return sp, finite, sims, cap
 
 
-TEMPLATES = ["chain", "rare_repeat", "homodimer", "trimer", "catalysis", "competing", "hill", "general", "birthdeath", "large_counts"]
+TEMPLATES = ["chain", "rare_repeat", "hill_open", "homodimer", "trimer", "catalysis", "competing", "hill", "general", "birthdeath", "large_counts"]
 
 
 def make_grid(rnd, rate_scale):
@@ -189,7 +199,11 @@ def generate(tier, seed):
     while len(cases) < nnet:
         name = TEMPLATES[i % len(TEMPLATES)]
         i += 1
-        sp, finite, sims, cap = template(rnd, name, variant=(3 + i // len(TEMPLATES)))     # the general template cycles through its forms, the power form first
+        # the general template cycles through its forms (the power form first), the Hill template through the families with the
+        # exponent exactly 1 (the edge where pow() can be short-cut) and other exponents
+        hv = [("hillnegative", 1.0), ("hillpositive", 1.0), ("proportionalhillnegative", 1.0), ("proportionalhillpositive", 1.0),
+              ("hillnegative", 2.0), ("hillpositive", 1.6)][(i // len(TEMPLATES)) % 6]
+        sp, finite, sims, cap = template(rnd, name, variant=(3 + i // len(TEMPLATES)), hill=hv if name == "hill" else None)
         counters = finite and rnd.random() < 0.6
         if counters:
             gen.add_counters(sp)
